@@ -65,7 +65,7 @@ Definition squote : Z := 39.
 
 Inductive binop := Match | NotMatch | Equal | NotEqual | Greater | GreaterEq | Less | LessEq
                  | In_ | NotIn | Add | Sub | Mul | Div | Mod.
-Inductive unop := Not | IsNull | IsNotNull | Neg | Pos.
+Inductive unop := Not | IsNull | IsNotNull | Neg.
 Inductive boolop := And | Or.
 
 Inductive expr :=
@@ -461,14 +461,18 @@ Definition transform_journal (j : journal) : tresult :=
       TOk (mkSelect (s_targets cooked) (j_from j) where_clause None None None None false)
   end.
 
+(* the keyword arguments of the old str.format call *)
+Definition legacy_env (where_text summary : str) (n : str) : str :=
+  if str_eqb n (s2z "where") then where_text else summary.
+
 (* before the fix: the text WHERE account ~ DQUOTE {} DQUOTE, formatted with journal.account,
    was spliced into the template as text *)
 Definition transform_journal_text_splice (j : journal) : tresult :=
   let where_text := if nonempty (j_account j)
                     then s2z "WHERE account ~ """ ++ or_empty (j_account j) ++ [dquote]
                     else [] in
-  let env n := if str_eqb n (s2z "where") then where_text else or_empty (j_summary_func j) in
-  match parse_template (format journal_template_legacy env) with
+  match parse_template (format journal_template_legacy
+                          (legacy_env where_text (or_empty (j_summary_func j)))) with
   | None => TParseError
   | Some cooked =>
       TOk (mkSelect (s_targets cooked) (j_from j) (s_where cooked) None None None None false)
@@ -594,7 +598,7 @@ Definition o_binop (b : binop) : out :=
       | GreaterEq => 5 | Less => 6 | LessEq => 7 | In_ => 8 | NotIn => 9 | Add => 10 | Sub => 11
       | Mul => 12 | Div => 13 | Mod => 14 end).
 Definition o_unop (u : unop) : out :=
-  ON (match u with Not => 0 | IsNull => 1 | IsNotNull => 2 | Neg => 3 | Pos => 4 end).
+  ON (match u with Not => 0 | IsNull => 1 | IsNotNull => 2 | Neg => 3 end).
 Definition o_boolop (b : boolop) : out := ON (match b with And => 0 | Or => 1 end).
 
 Fixpoint o_expr (e : expr) : out :=
@@ -633,3 +637,11 @@ Definition print_indexes (w : option (list value)) (n : nat) : presult nat :=
   end.
 Definition o_presult (r : presult nat) : out :=
   match r with POk l => OL [ON 0; o_list o_nat l] | PRaise k => OL [ON 1; ON k] end.
+
+(* relational check used on the implementation's BALANCES rows: the sort keys
+   (account type index, account name) of consecutive rows are non-decreasing *)
+Fixpoint sorted_keys (l : list (Z * str)) : bool :=
+  match l with
+  | a :: ((b :: _) as t) => sortkey_le a b && sorted_keys t
+  | _ => true
+  end.
